@@ -6,6 +6,7 @@ import MotoModel.Proofs.DiskReport
 import MotoModel.Proofs.DiskCount
 import MotoModel.Proofs.DiskEvents
 import MotoModel.Proofs.DiskUpdateText
+import MotoModel.Proofs.DiskAnnounceOrder
 import MotoModel.Props.C02
 import MotoModel.Props.C01
 namespace Moto.C12
@@ -356,5 +357,17 @@ example : Disk.secText false 1
       ⟨1, [.stored ⟨Tape.str "A", Tape.str "BAS", [], [], 3, 1⟩, .note (Tape.str "-- not found : x.bin"),
            .refused ⟨Tape.str "BIG", Tape.str "DAT", [], [], 99999, 49⟩ (Tape.str "too big")], ⟨1, 2, 157⟩⟩
     = Tape.str "---\nSide 1\n  A.BAS...ok\n  -- not found : x.bin\n  BIG.DAT...too big\n1 file\n" := by decide +kernel
+
+open Moto.Disk in
+/-- **C12 (create/add: each stored file appears exactly once, in processing order, under its catalog
+    name)**: for every image, every list of source arguments (markers, missing files, names too
+    long, refusals, retries on the following sides), the files the report announces as stored are, in
+    order, a sub-sequence of `srcs.filterMap (srcEv w)` — for each source argument in command-line
+    order its catalog name and extension, its kind strings, the size of the file on disk and the
+    blocks it needs: no source is announced twice, none out of order, none under another name or size.
+    (No hypothesis: it holds for the events of every batch.) -/
+theorem announcements_in_order (w : Tape.World) (srcs : List Str) (img : Image) :
+    ((storedOn 0 (batchEvents w srcs img)).map (·.2)).Sublist (srcs.filterMap (srcEv w)) :=
+  Disk.announcements_in_order w srcs img
 
 end Moto.C12
